@@ -96,3 +96,13 @@ add('C20', 'property-based testing: sufficiency oracle - generated re-assignment
     'outside the reported positions are evaluated by the reference semantics and must still violate; satisfied specifications must report nothing.',
     'Trusted: vlib/refsem.py; violation = robustness < 0 (the criterion explain() uses), a re-assigned trace with robustness exactly 0 only counts if the Boolean reference also says satisfied.',
     'DESIGN.md section 5 C20')
+add('C19', 'property-based testing: differential check between the dense-time and the discrete-time interpretation on generated grid-aligned step signals (Hypothesis)',
+    'The same formula (C19 fragment) and the same step signal are given to both monitors for sampling periods 1, 0.5 and 2 s; the dense result read at k*P must equal the discrete '
+    'result at sample k wherever the future windows end inside the trace; the dense input is also given in its sparse form.',
+    'Trusted: the harness horizon function; both sides are rtamt monitors (C01 and C04 tie each to the reference).',
+    'DESIGN.md section 5 C19')
+add('C05', 'property-based testing over generated update schedules (common, per-sample, per-variable independent cuts; exhaustive 2^(n-1) schedules for small one-variable signals) against the grid reference and against the single-update run (Hypothesis + enumeration)',
+    'Concatenated outputs must be well-formed with non-decreasing time stamps, equal R-ct wherever they cover (shifted by the horizon after pastify) and agree between schedules. '
+    'Main lanes: unbounded operators under arbitrary schedules, bounded and pastified operators in one update; the open finding (bounded operators fed in several updates) has its own lanes.',
+    'Trusted: vlib/refsem.py ct_cells; the output covers the span between its first and last time stamp; signals start together at 0.',
+    'DESIGN.md section 5 C05')
